@@ -247,3 +247,9 @@ Definition slips_total (l : list (N * N * N)) : N :=
    ticket's own [target] field plays no role. *)
 Definition golden_ticket_solves (solution_lz difficulty : N) : bool :=
   difficulty mod 4294967296 <=? solution_lz.
+
+(* the whole golden-ticket section of Block::validate (block.rs, "validate golden ticket"):
+   previous_block_unpaid must be 0, the ticket must not name the all-zero key, and the
+   re-targeted solution must meet the parent's difficulty *)
+Definition golden_ticket_section_ok (ticket_key previous_block_unpaid solution_lz difficulty : N) : bool :=
+  (previous_block_unpaid =? 0) && negb (ticket_key =? 0) && golden_ticket_solves solution_lz difficulty.
